@@ -19,10 +19,22 @@ pub trait Int: Copy + Eq + Ord + core::fmt::Debug + core::fmt::Display + core::h
         Self::wrap(1)
     }
     fn random(r: &mut Rng) -> Self {
-        match r.below(8) {
+        match r.below(9) {
             0 | 1 => {
                 let l = Self::lattice();
                 l[r.idx(l.len())]
+            }
+            8 if Self::BITS >= 32 => {
+                // neighbours of the rounding ties of the conversions to f32 / f64: 2^k + m*2^(k-p+1) + 2^(k-p) + d with
+                // p = 24 or 53 mantissa bits and d in -2..=2 (d != 0 decides the direction; a conversion that rounds
+                // twice, e.g. through f64 on the way to f32, loses d)
+                let p = if Self::BITS > 54 && r.bool() { 53u32 } else { 24 };
+                let hi = Self::BITS - if Self::wrap(-1).to_i128() < 0 { 2 } else { 1 };
+                let k = p + 1 + r.below((hi - p) as u64) as u32;
+                let m = (r.next_u64() as u128 & ((1u128 << (p - 1)) - 1)) as i128;
+                let x = (1i128 << k) + (m << (k - p + 1)) + (1i128 << (k - p)) + r.int_in(-2, 2) as i128;
+                let neg = Self::wrap(-1).to_i128() < 0 && r.bool();
+                Self::wrap(if neg { -x } else { x })
             }
             2 => Self::wrap(r.int_in(-4, 4) as i128),
             3 => Self::wrap(r.int_in(-300, 300) as i128),
